@@ -56,7 +56,7 @@ func zzBE96(b []byte) (hi uint32, lo uint64) {
 func ZZ_C08_seal_step() {
 	a := &zzAEAD{}
 	c := &sealContext{zzNewCtx(a)}
-	n := zzLen("ptlen", 0, 2)
+	n := zzLen("ptlen", 0, zzT(2, 9))
 	pt := make([]byte, n)
 	zzFill("pt", pt)
 	aad := make([]byte, 1)
@@ -107,7 +107,7 @@ func ZZ_C08_open_step() {
 	a := &zzAEAD{}
 	a.failOpen = zzBool("aead_fails")
 	c := &openContext{zzNewCtx(a)}
-	n := zzLen("ctlen", 15, 18)
+	n := zzLen("ctlen", 15, zzT(18, 26))
 	ct := make([]byte, n)
 	zzFill("ct", ct)
 	var seq0, base0 [12]byte
